@@ -124,11 +124,63 @@ SvdPlanted(m, n, t) ==
      /\ \A k \in 1..r - 1 : sv[k] >= sv[k + 1]
      /\ \A k \in 1..r : sv[k] >= 0
 
+
+(*********************** families "spd", "band", "psd", "exp" ***************)
+\* "spd": G = M^T M + I is symmetric positive definite for every integer M (theorem SpdPlanted)
+SpdOf(n, t) == MatAdd(MatMul(Transp(Fam(n, n, t)), Fam(n, n, t)), Ident(n))
+SpdRec(n, t) ==
+  LET G == SpdOf(n, t)  b == RhsOf(n, t)  x == MatMul(Adj(G), b) IN
+  [k |-> "spd", n |-> n, t |-> t, a |-> G, det |-> Det(G), b |-> b, num |-> x, adj |-> Adj(G),
+   tolX |-> TolSol(G, x), tolInv |-> TolSol(G, Adj(G)), tolA |-> 64 * n * (Norm1(G) + 1),
+   condHi |-> <<Norm1(G) * Norm1(Adj(G)), Det(G)>>,    \* exact cond_1 = cond_inf (symmetric)
+   tolDet |-> 64 * n * Norm1(Adj(G)) + Det(G), unitExp |-> UnitExp]
+\* "band": strictly diagonally dominant symmetric band matrices (half bandwidth kd <= 2)
+BandOf(n, kd, t) == [i \in 1..n |-> [j \in 1..n |->
+                      IF i = j THEN 5 + ((i + t) % 3)
+                      ELSE IF AbsI(i - j) <= kd THEN ((i + j + t + Seed) % 3) - 1 ELSE 0]]
+BandRec(n, kd, t) ==
+  LET G == BandOf(n, kd, t)  b == RhsOf(n, t)  x == MatMul(Adj(G), b) IN
+  [k |-> "band", n |-> n, kd |-> kd, t |-> t, a |-> G, det |-> Det(G), b |-> b, num |-> x,
+   tolX |-> TolSol(G, x), tolA |-> 64 * n * (Norm1(G) + 1),
+   condHi |-> <<Norm1(G) * Norm1(Adj(G)), Det(G)>>,
+   tolDet |-> 64 * n * Norm1(Adj(G)) + Det(G), unitExp |-> UnitExp]
+SpdPlanted(G) == /\ IsSymmetric(G) /\ PosDef(G)
+                 /\ MatMul(G, Adj(G)) = MatScale(Det(G), Ident(Len(G)))
+\* "psd": A = H d^2 H^T / n has the unique positive definite square root H d H^T / n (theorem PsdPlanted)
+PsdD(n, t) == [k \in 1..n |-> 1 + ((k * (1 + t) + Seed) % 4)]
+PsdRec(n, t) ==
+  LET H == Had(n)  d == PsdD(n, t)
+      d2 == [k \in 1..n |-> d[k] * d[k]]  d4 == [k \in 1..n |-> d[k] * d[k] * d[k] * d[k]]
+      mk(v) == MatMul(H, MatMul(DiagRect(n, n, v), Transp(H)))
+  IN [k |-> "psd", n |-> n, t |-> t, anum |-> mk(d2), aden |-> n, rootnum |-> mk(d), sqnum |-> mk(d4),
+      tolA |-> 64 * n * (CeilDiv(Norm1(mk(d4)), n) + 1), unitExp |-> UnitExp]
+PsdPlanted(n, t) ==
+  LET H == Had(n)  d == PsdD(n, t)  d2 == [k \in 1..n |-> d[k] * d[k]]
+      mk(v) == MatMul(H, MatMul(DiagRect(n, n, v), Transp(H)))
+  IN /\ MatMul(mk(d), mk(d)) = MatScale(n, mk(d2))      \* root * root = A   (both over the denominator n)
+     /\ \A k \in 1..n : d[k] > 0
+     /\ MatMul(mk(d), H) = MatScale(n, MatMul(H, DiagRect(n, n, d)))   \* the root has the positive spectrum d
+\* "exp": nilpotent integer N (strictly triangular), exp(N) = I + N + N^2/2 + N^3/6 exactly
+NilOf(n, t) == [i \in 1..n |-> [j \in 1..n |->
+                 IF (t % 2 = 0 /\ i < j) \/ (t % 2 = 1 /\ i > j)
+                 THEN ((i * (t + 1) + j * (Seed + 2) + t) % 5) - 2 ELSE 0]]
+ExpRec(n, t) ==
+  LET Nm == NilOf(n, t)  N2 == MatMul(Nm, Nm)  N3 == MatMul(N2, Nm)
+      E6 == MatAdd(MatAdd(MatScale(6, Ident(n)), MatScale(6, Nm)), MatAdd(MatScale(3, N2), N3))
+  IN [k |-> "exp", n |-> n, t |-> t, a |-> Nm, enum |-> E6, eden |-> 6,
+      tolA |-> 64 * n * (CeilDiv(Norm1(E6), 6) + 1), unitExp |-> UnitExp]
+ExpPlanted(n, t) == LET Nm == NilOf(n, t) IN
+                      MatMul(MatMul(Nm, Nm), MatMul(Nm, Nm)) = MatScale(0, Ident(n))    \* N^4 = 0: the series is finite
+
 (********************************* cases ************************************)
 Cases == {[fam |-> "ls", m |-> m, n |-> n, t |-> t] : m \in 1..(IF MaxDim > 4 THEN 4 ELSE MaxDim),
                                                        n \in 1..(IF MaxDim > 4 THEN 4 ELSE MaxDim), t \in 0..NVariants - 1}
          \cup {[fam |-> "eig", m |-> n, n |-> n, t |-> t] : n \in {x \in {1, 2, 4, 8} : x <= MaxDim}, t \in 0..NVariants - 1}
          \cup {[fam |-> "svd", m |-> p[1], n |-> p[2], t |-> t] : p \in SvdShapes, t \in 0..NVariants - 1}
+         \cup {[fam |-> "spd", m |-> n, n |-> n, t |-> t] : n \in 1..4, t \in 0..NVariants - 1}
+         \cup {[fam |-> "band", m |-> kd, n |-> n, t |-> t] : n \in 1..5, kd \in 0..2, t \in 0..(NVariants \div 4)}
+         \cup {[fam |-> "psd", m |-> n, n |-> n, t |-> t] : n \in {x \in {1, 2, 4, 8} : x <= MaxDim}, t \in 0..(NVariants \div 4)}
+         \cup {[fam |-> "exp", m |-> n, n |-> n, t |-> t] : n \in 1..4, t \in 0..NVariants - 1}
 
 Init == c \in Cases
 Next == UNCHANGED vars
@@ -142,9 +194,17 @@ Theorems ==
                                      /\ SquareExact(M)
     [] c.fam = "eig" -> EigPlanted(c.n, c.t)
     [] c.fam = "svd" -> SvdPlanted(c.m, c.n, c.t)
+    [] c.fam = "spd" -> SpdPlanted(SpdOf(c.n, c.t))
+    [] c.fam = "band" -> (c.m < c.n) => SpdPlanted(BandOf(c.n, c.m, c.t))
+    [] c.fam = "psd" -> PsdPlanted(c.n, c.t)
+    [] c.fam = "exp" -> ExpPlanted(c.n, c.t)
 
 EmitCase ==
   Emit => CASE c.fam = "ls"  -> (LsOK(Fam(c.m, c.n, c.t)) => PrintT(ToJson(LsRec(c.m, c.n, c.t))))
             [] c.fam = "eig" -> PrintT(ToJson(EigRec(c.n, c.t)))
             [] c.fam = "svd" -> PrintT(ToJson(SvdRec(c.m, c.n, c.t)))
+            [] c.fam = "spd" -> PrintT(ToJson(SpdRec(c.n, c.t)))
+            [] c.fam = "band" -> ((c.m < c.n) => PrintT(ToJson(BandRec(c.n, c.m, c.t))))
+            [] c.fam = "psd" -> PrintT(ToJson(PsdRec(c.n, c.t)))
+            [] c.fam = "exp" -> PrintT(ToJson(ExpRec(c.n, c.t)))
 =============================================================================
